@@ -484,6 +484,11 @@ class Parser():
                        not self._tokens[then_end_pos].matches(lexer.TokNewline)):
                     then_end_pos += 1
 
+                # (A short-if nested in this one's body must not lift this
+                # one's limit when it ends.)
+                outer_max_pos = self._max_pos
+                if outer_max_pos is not None:
+                    then_end_pos = min(then_end_pos, outer_max_pos)
                 try:
                     self._max_pos = then_end_pos
                     block = self._assert(self._chunk(),
@@ -493,7 +498,7 @@ class Parser():
                         # PICO-8 accepts an else with nothing after it.
                         else_block = self._chunk()
                 finally:
-                    self._max_pos = None
+                    self._max_pos = outer_max_pos
 
                 # (Use exp.value here to unwrap the condition from the
                 # bracketed expression.)
